@@ -78,6 +78,11 @@ def run_entry(case, entry):
             ok, _ = s.wait_prompt(15)
             if not ok:
                 return None
+            # not the first command of the session: history expansion (`!!`) only acts from the second on
+            ok, _ = s.line("vp_argv WARMUP", 15)
+            if not ok:
+                return None
+            sb.reset_log()
             ok, outp = s.line(line, 20)
             if not ok:
                 return {"dead": not s.alive(), "records": None, "continuation_prompt": b">> " in outp[-40:]}
